@@ -112,7 +112,15 @@ static string cty(Type* t) {
   auto it = C.tyName.find(t);
   if (it != C.tyName.end()) return it->second;
   if (auto* st = dyn_cast<StructType>(t)) {
-    string n = "struct S" + std::to_string(C.tyCounter++);
+    // named LLVM structs keep a stable C tag derived from their name, so that models/*.c can declare the very same
+    // struct type (same tag, same fields f0..fn): CBMC then sees typed field accesses in model code instead of type-punned
+    // byte accesses (which wreck its points-to sets and constant propagation for the enclosing object)
+    string n;
+    if (st->hasName()) {
+      n = "struct T_" + sanitize(st->getName());
+      if (C.usedNames.count(n)) n += "_" + std::to_string(C.tyCounter++);
+      C.usedNames.insert(n);
+    } else n = "struct S" + std::to_string(C.tyCounter++);
     C.tyName[t] = n;
     C.typeFwd << n << "; /* " << (st->hasName() ? st->getName().str() : tstr(t)) << " */\n";
     C.structOrder.push_back(st);
